@@ -59,6 +59,42 @@ def cases(tier, rng, boost=1):
             if sid == 'C13' and c['threads'] != 16:
                 c = dict(c, threads=16)          # let the configuration decide the thread count
             yield dict(c, sub=sid)
+    # call histories on ONE state-trajectory object (plain or lumped): a compiled branch that works on the object's own
+    # buffers, or passes other data than the interpreted branch, shows up as a difference between the configurations
+    yield {'op': 'objhist', 'sub': 'objhist', 'src': 'corpus', 'trajs': [[0, 0, 1, 0, 0, 0, 2, 2, 2, 1, 1, 1, 0, 2, 2]], 'lump': None,
+           'ops': [['coring', 3, True], ['trajs'], ['coring', 2, False], ['est', 1], ['wt', [0], [2]]]}
+    yield {'op': 'objhist', 'sub': 'objhist', 'src': 'corpus', 'trajs': [[3, 5, 7, 5, 3, 3, 9, 9, 7, 5, 3, 9, 9, 9, 3, 5]],
+           'lump': {'3': 1, '5': 1, '7': 2, '9': 4}, 'ops': [['wt', [1], [4]], ['paths', [1], [4]], ['trajs'], ['est', 1]]}
+    for _ in range(40 * mult):
+        ns = rng.randint(3, 6)
+        labs, _cls = gen.alphabet(rng, ns, cls=rng.choice(['zero', 'one', 'gapped', 'negative']))
+        idx = gen.random_trajs(rng, ns, rng.randint(1, 3), 12, 40, sticky=0.7)
+        trajs = gen.relabel(idx, labs)
+        occ = sorted({x for t in trajs for x in t})
+        lump = None
+        if rng.random() < 0.5 and len(occ) >= 3:
+            nm = rng.randint(2, len(occ) - 1)
+            ml = rng.sample(range(1, 40), nm)
+            asg = [rng.randrange(nm) for _ in occ]
+            for a_ in range(nm):
+                asg[a_] = a_
+            rng.shuffle(asg)
+            lump = {str(o): ml[a_] for o, a_ in zip(occ, asg)}
+        labels = sorted(set(lump.values())) if lump else occ
+        ops = []
+        for _i in range(rng.randint(3, 7)):
+            kind = rng.choice(['coring', 'coring', 'est', 'wt', 'paths', 'trajs', 'its'])
+            if kind == 'coring':
+                ops.append(['coring', rng.randint(1, 4), rng.random() < 0.6])
+            elif kind in ('est', 'its'):
+                ops.append([kind, rng.randint(1, 3)])
+            elif kind in ('wt', 'paths'):
+                a_ = rng.choice(labels)
+                rest = [x for x in labels if x != a_]
+                ops.append([kind, [a_], [rng.choice(rest)] if rest else [a_ + 1]])
+            else:
+                ops.append(['trajs'])
+        yield {'op': 'objhist', 'sub': 'objhist', 'src': 'rand', 'trajs': trajs, 'lump': lump, 'ops': ops}
     for _ in range(60 * mult):
         kind = rng.choice(['rownorm', 'matpow', 'find_first'])
         if kind == 'find_first':
@@ -70,7 +106,45 @@ def cases(tier, rng, boost=1):
             yield {'op': 'utils', 'kind': kind, 'M': M, 'k': rng.randint(0, 6), 'sub': 'utils', 'src': 'rand'}
 
 
+def _real_objhist(case):
+    import msmhelper as mh
+    trajs = [np.array(t, dtype=np.int64) for t in case['trajs']]
+    if case.get('lump'):
+        macro = [np.array([case['lump'][str(x)] for x in t], dtype=np.int64) for t in case['trajs']]
+        obj = mh.LumpedStateTraj(macro, trajs)
+        expect = [m.tolist() for m in macro]
+    else:
+        obj = mh.StateTraj(trajs)
+        expect = case['trajs']
+    out = []
+    for op in case['ops']:
+        try:
+            if op[0] == 'coring':
+                v = [t.tolist() for t in mh.md.dynamical_coring(obj, op[1], iterative=op[2]).trajs]
+            elif op[0] == 'est':
+                T, st = obj.estimate_markov_model(op[1])
+                v = {'T': [[core.rat_str(float(x)) for x in row] for row in np.asarray(T)], 'states': [int(x) for x in st]}
+            elif op[0] == 'its':
+                r = mh.msm.implied_timescales(obj, [op[1]])
+                v = [['nan' if x != x else core.rat_str(float(x)) for x in row] for row in np.asarray(r, dtype=np.float64)]
+            elif op[0] == 'wt':
+                v = [int(x) for x in mh.md.estimate_waiting_times(obj, op[1], op[2])]
+            elif op[0] == 'paths':
+                d = mh.md.estimate_paths(obj, op[1], op[2])
+                v = sorted([[int(x) for x in k], sorted(int(x) for x in val)] for k, val in d.items())
+            else:
+                v = [t.tolist() for t in obj.trajs]
+                if v != expect:
+                    v = {'WRONG-TRAJS': v}
+        except Exception as e:  # noqa
+            v = {'err': core.err_name(e)}
+        out.append(v)
+    return {'ok': out}
+
+
 def real(case):
+    if case['sub'] == 'objhist':
+        return _real_objhist(case)
     if case['sub'] != 'utils':
         return SUB[case['sub']].real(case)
     import msmhelper as mh
@@ -92,6 +166,8 @@ def _first(obs):
 
 def request(case, obs):
     o = _first(obs)
+    if case['sub'] == 'objhist':
+        return {'op': 'ping'}
     if case['sub'] != 'utils':
         return SUB[case['sub']].request(case, o)
     if 'err' in o:
@@ -138,6 +214,8 @@ def agree(case, obs, reply):
     if configs_agree(obs):
         return False
     o = _first(obs)
+    if case['sub'] == 'objhist':
+        return 'ok' in o and 'WRONG-TRAJS' not in str(o['ok'])
     if case['sub'] != 'utils':
         return SUB[case['sub']].agree(case, o, reply)
     if 'err' in o:
@@ -150,6 +228,8 @@ def holds(case, obs, reply):
     if configs_agree(obs):
         return False
     o = _first(obs)
+    if case['sub'] == 'objhist':
+        return agree(case, obs, reply)
     if case['sub'] != 'utils':
         return SUB[case['sub']].holds(case, o, reply)
     return agree(case, obs, reply)
@@ -160,6 +240,8 @@ def nontrivial(case, obs, reply):
 
 
 def key(case):
+    if case['sub'] == 'objhist':
+        return ['objhist', case['trajs'], case['lump'], case['ops']]
     return [case['sub'], SUB[case['sub']].key(case) if case['sub'] != 'utils' else [case['kind'], case.get('M'), case.get('k'), case.get('list'), case.get('val')]]
 
 
@@ -173,6 +255,10 @@ def known_match(k, case, obs, reply):
 
 
 def shrink(case):
+    if case['sub'] == 'objhist':
+        for i in range(len(case['ops'])):
+            yield dict(case, ops=case['ops'][:i] + case['ops'][i + 1:])
+        return
     if case['sub'] != 'utils' and hasattr(SUB[case['sub']], 'shrink'):
         for c in SUB[case['sub']].shrink(case):
             yield dict(c, sub=case['sub'])
